@@ -45,7 +45,7 @@ def nhIsV4 : Nh → Bool
 def domReach (i : Input) : Bool :=
   match i.msg with
   | .reach f (some nh) attrs es =>
-      buildable i && encodable i && as4Both i.loc i.rem && negAgree i f && !es.isEmpty && (isIpFam f).isSome &&
+      buildable i && encodable i && as4Both i.loc i.rem && !es.isEmpty && (isIpFam f).isSome &&
       fitReach i f nh attrs && ((f == Fam.ipv4 && !extNhNegotiated i) || !nhIsV4 nh)
   | _ => false
 
@@ -53,7 +53,7 @@ def domReach (i : Input) : Bool :=
 def domUnreach (i : Input) : Bool :=
   match i.msg with
   | .unreach f es =>
-      buildable i && encodable i && negAgree i f && !es.isEmpty && (isIpFam f).isSome && fitUnreach i f
+      buildable i && encodable i && !es.isEmpty && (isIpFam f).isSome && fitUnreach i f
   | _ => false
 
 /-! ### consequences of `buildable` -/
